@@ -641,6 +641,12 @@ fn judge(w: &WorldSpec, lib: &Result<LibRef, String>, sep: &ProcResult, shared: 
                     }
                 }
             }
+            if !w.stderr_tty && !contains(&sep.stderr, msg.as_bytes()) {
+                return Some((
+                    "C20.R2-error-on-stderr",
+                    format!("the parse error text on standard error is the library's text {:?} only after terminal escape sequences have been removed from inside it", msg),
+                ));
+            }
             if contains(&stdout_plain, msg.as_bytes()) {
                 return Some(("C20.R2-error-on-stderr", "the parse error text appears on standard output".into()));
             }
@@ -667,6 +673,15 @@ fn judge(w: &WorldSpec, lib: &Result<LibRef, String>, sep: &ProcResult, shared: 
                             return Some(("C20.R2-error-on-stderr", "the runtime error on standard error is not prefixed as a runtime error".into()));
                         }
                     }
+                }
+                // the message is the library's text as it stands: whatever
+                // decoration the tool adds goes around it, not into it (on a
+                // terminal line ends are translated, so only elsewhere)
+                if !w.stderr_tty && !contains(&sep.stderr, msg.as_bytes()) {
+                    return Some((
+                        "C20.R2-error-on-stderr",
+                        format!("the runtime error text on standard error is the library's text {:?} only after terminal escape sequences have been removed from inside it", msg),
+                    ));
                 }
             } else if contains(&stderr.to_ascii_lowercase(), b"runtime error") || contains(&stderr.to_ascii_lowercase(), b"parse error") {
                 return Some(("C20.R2-error-on-stderr", "the library succeeded but the binary reports an error on standard error".into()));
